@@ -219,8 +219,63 @@ pub fn run(h: &H) {
     if h.cfg.shard == 1 % h.cfg.nshards && h.cfg.only.is_none() {
         h.guard(u64::MAX - 3, "unitconvert: all unit pairs", || unitconvert(h));
     }
+    if h.cfg.shard == 2 % h.cfg.nshards && h.cfg.only.is_none() {
+        h.guard(u64::MAX - 4, "the built-in adaptor macros", || adaptors(h));
+    }
     if h.want_sample() {
         h.sample(J::obj().set("adapt", "adapt from=neuf_deg to=wsdp_gon").set("probe", J::coords(&PROBE)));
+    }
+}
+
+/// The adaptor macros every context starts with (Rumination 002: geo = latitude, longitude in
+/// degrees; gis = longitude, latitude in degrees; neu = northing, easting; enu = the internal
+/// order itself; `:in` towards the internal convention, `:out` away from it), written down here as
+/// mappings of a tuple, independently of the `adapt` descriptors they are defined by
+fn adaptors(h: &H) {
+    let idx = u64::MAX - 4;
+    let d2r = std::f64::consts::PI / 180.0;
+    let p = PROBE;
+    type Map = fn(&[f64; 4], f64) -> [f64; 4];
+    let table: [(&str, Map); 8] = [
+        ("geo:in", |p, k| [p[1] * k, p[0] * k, p[2], p[3]]),
+        ("geo:out", |p, k| [p[1] / k, p[0] / k, p[2], p[3]]),
+        ("gis:in", |p, k| [p[0] * k, p[1] * k, p[2], p[3]]),
+        ("gis:out", |p, k| [p[0] / k, p[1] / k, p[2], p[3]]),
+        ("neu:in", |p, _| [p[1], p[0], p[2], p[3]]),
+        ("neu:out", |p, _| [p[1], p[0], p[2], p[3]]),
+        ("enu:in", |p, _| *p),
+        ("enu:out", |p, _| *p),
+    ];
+    for (make, label) in [(true, "Minimal"), (false, "Plain")] {
+        for (name, map) in table.iter() {
+            let want = map(&p, d2r);
+            let (got, count) = if make {
+                let mut ctx = Minimal::new();
+                let Ok(op) = ctx.op(name) else {
+                    h.violation(idx, &format!("C11/adaptor/{name}/not-available"), J::obj().set("context", label));
+                    continue;
+                };
+                apply1(&ctx, op, D::F, p)
+            } else {
+                let mut ctx = Plain::new();
+                let Ok(op) = ctx.op(name) else {
+                    h.violation(idx, &format!("C11/adaptor/{name}/not-available"), J::obj().set("context", label));
+                    continue;
+                };
+                apply1(&ctx, op, D::F, p)
+            };
+            h.eval(1);
+            h.distinct(mix(hash_str(name), make as u64));
+            h.class("adaptor-macros");
+            let ok = count == 1 && (0..4).all(|i| (got[i] - want[i]).abs() <= 2.0 * crate::geo::ulp(want[i]));
+            if !ok {
+                h.violation(
+                    idx,
+                    &format!("C11/adaptor/{name}/mapping-differs"),
+                    J::obj().set("context", label).set("input", J::coords(&p)).set("library", J::coords(&got)).set("documented", J::coords(&want)),
+                );
+            }
+        }
     }
 }
 
